@@ -119,12 +119,12 @@ add("C13",
 add("C15",
     "PARTIAL. Coq theorems over Model/S3.v: listing by pages of any size >= 1 equals the unpaged listing (induction over the page sequence), "
     "laws of paths::join (unit tests as lemmas, unit, single slash at the seam, associativity), keys <-> file tree bijection, exact prefix "
-    "stripping outside the trailing-slash class (witness inside), list_objects returns exactly the object roots of the bucket. Search: the same "
+    "stripping for EVERY given prefix (S3Client::new trims trailing slashes: client_prefix), list_objects returns exactly the object roots of the bucket. Search: the same "
     "generated histories driven through the real library on a filesystem repository and on a local TLS S3 stand-in (bucket root / nested prefix, "
     "page sizes 1,2,3,1000, both sides of the multipart threshold): step results, key set = file set, bytes, every read-API answer compared. "
     "Correspondence: the Gallina scan / paging model evaluated on the observed bucket dumps and request sequences.",
-    "HTTP, rusoto, tokio, request signing and real S3 semantics are outside the model; the stand-in (vplib/s3stub.py) is trusted. Known finding: "
-    "prefix with a trailing slash.",
+    "HTTP, rusoto, tokio, request signing and real S3 semantics are outside the model; the stand-in (vplib/s3stub.py) is trusted. Prefixes "
+    "spelled with trailing, only, leading and inner double slashes are generated as must-pass (repaired by 1405318).",
     "machine-checked proof in Coq (paging independence, join laws, bijection) + fs-vs-S3 differential on histories")
 
 add("C16",
@@ -164,13 +164,13 @@ add("C19",
 
 add("C20",
     "PARTIAL. Coq theorems over Model/Cli.v: exit status 0 iff every library call succeeded (partial cp/mv and per-item ls errors non-zero), "
-    "validate exits 2 iff something is invalid after suppression (refuted for the pinned code on storage-root errors: known class, proved for "
-    "the class-exact and the repaired logic), exit 1 iff only operational errors, suppression monotone, the option -> library-call mapping is "
-    "total on the generated grammar with defaults and forwarding pinned. Correspondence: every generated history replayed through the release "
+    "validate exits 2 iff something is invalid after suppression (unconditional since the repair 33c0c45), the storage root / hierarchy "
+    "blocks list exactly the unsuppressed problems and `Storage issues` counts them, exit 1 iff only operational errors, suppression "
+    "monotone, the option -> library-call mapping is total on the generated grammar with defaults and forwarding pinned. Correspondence: every generated history replayed through the release "
     "binary and through the library harness in two scratch repositories: Coq evaluates argv_to_call and cli_exit per invocation. Search: trees "
     "equal, cat stdout byte-identical, one listing entry per library result, exit status truthful, validate verdicts under generated options.",
-    "clap parsing, terminal styling and stdout plumbing are exercised, not modelled; only the decision logic is proved. Known finding: "
-    "validate-root-suppression.",
+    "clap parsing, terminal styling and stdout plumbing are exercised, not modelled; only the decision logic is proved. `validate -e <root "
+    "code>` inputs (the defect repaired by 33c0c45) are generated in every run as must-pass.",
     "machine-checked proof in Coq (decision-logic lemmas) + CLI-vs-library differential on histories")
 
 
